@@ -1,0 +1,21 @@
+//go:build verif
+// +build verif
+
+// Assumed contracts for package luagc (comment-only; read by /verif/govc).
+// The finaliser pools are outside the verifier's subset (maps, weak
+// references, Go finalizers): these contracts are trusted, not verified.
+
+package luagc
+
+//@ func NewDefaultPool
+//@   trusted
+//@   modifies nothing
+
+// Extracting values from a pool touches only the pool's own bookkeeping.
+//@ func iface:Pool.ExtractAllMarkedFinalize
+//@   trusted
+//@   modifies nothing
+
+//@ func iface:Pool.ExtractAllMarkedRelease
+//@   trusted
+//@   modifies nothing
